@@ -258,6 +258,9 @@ def disk_tree(rng, max_entries=30, max_depth=5, types=("dir", "file", "symlink",
             e["mode"] = rng.choice([0o644, 0o600, 0o755, 0o4755, 0o2755, 0o400, 0o666])
             if t == "file":
                 e["size"] = rng.choice(file_sizes)
+                if rng.random() < 0.06:
+                    # a sparse tail (the file was extended by truncate): bytes that read as zeros but were never written
+                    e["hole"] = rng.choice([1, 4096, 70000])
             elif t == "symlink":
                 # (targets are opaque strings: also ones that are not in lexically clean form, and one longer than a tar header field)
                 e["ln"] = hx(rng.choice([b"a", b"../a", b"/abs/x", b"b/c", b".", b"..", b"a b", b"\xff",
